@@ -410,9 +410,10 @@ static void mutation_point(int cls)
 /* Resolve where a path-taking call will act, exactly as the kernel will: all components but the
  * last are followed; the last one is followed iff `follow`. The parent directory is resolved with
  * realpath (so symlinked parents show their real location), the last component is appended. */
-static void jail_check(const char *call, int dirfd, const char *path, int follow)
+static void jail_check_depth(const char *call, int dirfd, const char *path, int follow, int depth)
 {
 	char full[PATH_MAX * 2], parent[PATH_MAX], resolved[PATH_MAX], final[PATH_MAX * 2];
+	ssize_t n;
 	if (!jail_on || !path)
 		return;
 	if (path[0] == '/') {
@@ -424,7 +425,7 @@ static void jail_check(const char *call, int dirfd, const char *path, int follow
 	} else {
 		char link[64];
 		snprintf(link, sizeof(link), "/proc/self/fd/%d", dirfd);
-		ssize_t n = readlink(link, parent, sizeof(parent) - 1);
+		n = readlink(link, parent, sizeof(parent) - 1);
 		if (n < 0)
 			return;
 		parent[n] = 0;
@@ -436,6 +437,19 @@ static void jail_check(const char *call, int dirfd, const char *path, int follow
 		full[--l] = 0;
 	if (follow && realpath(full, resolved)) {
 		snprintf(final, sizeof(final), "%s", resolved);
+	} else if (follow && depth < 8 && (n = readlink(full, parent, sizeof(parent) - 1)) > 0) {
+		/* dangling symlink as last component of a call that follows it: the kernel acts on the link's target */
+		char *slash = strrchr(full, '/');
+		parent[n] = 0;
+		if (parent[0] == '/') {
+			jail_check_depth(call, AT_FDCWD, parent, follow, depth + 1);
+		} else {
+			char again[PATH_MAX * 3];
+			*slash = 0;
+			snprintf(again, sizeof(again), "%s/%s", full, parent);
+			jail_check_depth(call, AT_FDCWD, again, follow, depth + 1);
+		}
+		return;
 	} else {
 		char *slash = strrchr(full, '/');
 		const char *last = slash + 1;
@@ -460,9 +474,18 @@ static void jail_check(const char *call, int dirfd, const char *path, int follow
 		}
 	}
 	size_t rl = strlen(jail_root);
+	size_t fl = strlen(final);
+	/* creating the unpack root itself walks its ancestors with mkdir (EEXIST is ignored): no effect outside R */
+	if (!strcmp(call, "mkdir") && fl < rl && !strncmp(jail_root, final, fl) && (jail_root[fl] == '/' || fl == 1))
+		return;
 	if (strncmp(final, jail_root, rl) != 0 || (final[rl] != 0 && final[rl] != '/')) {
 		sim_violation("confinement %s acts-on %s outside %s (path %s)", call, final, jail_root, path);
 	}
+}
+
+static void jail_check(const char *call, int dirfd, const char *path, int follow)
+{
+	jail_check_depth(call, dirfd, path, follow, 0);
 }
 
 /* ------------------------------------------------------------------ wrappers */
